@@ -1036,8 +1036,19 @@ class AnsiString:
 
         if isinstance(value, AnsiString):
             incoming_str = value._s
-            # Work on a private copy of the incoming markers - the merge below rewrites them
-            incoming_fmts = {k: _AnsiSettingPoint(list(v.add), list(v.rem)) for k, v in value._fmts.items()}
+            # Work on a private copy of the incoming markers - the merge below rewrites them. The settings are
+            # duplicated as well because they are matched by reference and value may share them with me (e.g. s + s)
+            unique_settings = {}
+            for v in value._fmts.values():
+                for setting in v.add:
+                    unique_settings[id(setting)] = AnsiSetting(setting)
+            incoming_fmts = {
+                k: _AnsiSettingPoint(
+                    [unique_settings.get(id(setting), setting) for setting in v.add],
+                    [unique_settings.get(id(setting), setting) for setting in v.rem]
+                )
+                for k, v in value._fmts.items()
+            }
         else:
             raise TypeError(f'value is invalid type: {type(value)}')
 
